@@ -46,6 +46,8 @@ type schedDesc struct {
 	Detect bool        `json:"detect"`
 	Pause  bool        `json:"pause,omitempty"` // the commit worker stops before applying each request (Crash point commit.head)
 	Probe  bool        `json:"probe,omitempty"` // look (call stack) for a txnMark.Begin running outside newCommitTs and stop there
+	Base   uint64      `json:"base,omitempty"`  // start from a store whose maximal version is Base (written, closed, reopened)
+	Stop   []int       `json:"stop,omitempty"`  // committers that also stop at the yield point sendToWriteCh (timestamp issued and registered, nothing enqueued)
 	Progs  []schedProg `json:"progs"`
 	Words  []int       `json:"words"`
 	Picks  []int       `json:"picks,omitempty"`
@@ -93,8 +95,23 @@ func execSched(c *corr.Ctx, d schedDesc) (corr.Case, error) {
 	dir := scratchDir(c)
 	defer os.RemoveAll(dir)
 	db := openTxnDB(dir, txnCfg{Detect: d.Detect, MaxCount: 64, MaxSize: 1 << 20, VThr: 1024})
+	if d.Base > 0 {
+		// initCommitState(MaxVersion) on reopen puts the timestamp counter and both watermarks at Base
+		if err := db.SetVersionedEntry(kv.CFDefault, []byte("seed"), d.Base, []byte("s"), 0); err != nil {
+			db.Close()
+			return corr.Case{}, err
+		}
+		db.Close()
+		db = openTxnDB(dir, txnCfg{Detect: d.Detect, MaxCount: 64, MaxSize: 1 << 20, VThr: 1024})
+	}
 	defer db.Close()
 	n := len(d.Progs)
+	stopSend := make([]bool, n)
+	for _, id := range d.Stop {
+		if id < n {
+			stopSend[id] = true
+		}
+	}
 	res := make([]schedRes, n)
 	waitR := make([]uint64, n)
 	var herr error
@@ -287,13 +304,20 @@ func execSched(c *corr.Ctx, d schedDesc) (corr.Case, error) {
 					picks = append(picks, id) // the timestamp is issued: the model's commit step
 					return
 				}
+				if st.Point == "sendToWriteCh" && stopSend[id] && !atMark[id] {
+					// the commit has its timestamp and is registered with the watermark, nothing is enqueued yet
+					stopSend[id] = false
+					atMark[id] = true
+					picks = append(picks, id) // the model's commit step
+					return
+				}
 				st = s.Grant(id) // a yield point that is not a step of the model
 				woken = append(woken, st.Woken...)
 				continue
 			}
 			break
 		}
-		resumedFromMark := atMark[id] && strings.HasPrefix(from, "utils.WaterMark.")
+		resumedFromMark := atMark[id] && (strings.HasPrefix(from, "utils.WaterMark.") || from == "sendToWriteCh")
 		if resumedFromMark {
 			atMark[id] = false
 		} else {
@@ -391,7 +415,7 @@ func execSched(c *corr.Ctx, d schedDesc) (corr.Case, error) {
 	c.CountN("commit_conflict", conflicts)
 	c.CountN("forced_wait_blocked", forcedBlocked)
 	c.CountN("stopped_between_timestamp_and_mark", markStops)
-	coq := fmt.Sprintf("Cs %s %s %s %s %s %s", corr.Bool(d.Detect), corr.List(fps), corr.List(progs), corr.ListN(pk),
+	coq := fmt.Sprintf("Cs %d %s %s %s %s %s %s", d.Base, corr.Bool(d.Detect), corr.List(fps), corr.List(progs), corr.ListN(pk),
 		corr.List(obs), corr.List(dumps))
 	return corr.Case{Coq: coq, Nontrivial: oks > 0, Desc: d}, nil
 }
@@ -454,7 +478,9 @@ func runTxnSched(c *corr.Ctx) error {
 		"commit is in flight, a second committer overwriting its key and a third one pruning the conflict history, in several orders. "+
 		"targeted D: a committer stopped between its timestamp and its registration with the commit watermark (only possible when "+
 		"txnMark.Begin runs outside newCommitTs: detected by the call stack at the watermark's yield point), a second committer "+
-		"committing meanwhile, a reader reading the first one's key twice. random: "+
+		"committing meanwhile, a reader reading the first one's key twice. targeted E: the DB reopened at timestamp 65530, the first "+
+		"committer stopped before it enqueues (yield point sendToWriteCh), six complete commits that slide the watermark's 65536-slot window, "+
+		"then the reader. random: "+
 		"3-5 threads (committers of a, b or both, RMW transactions, read-only readers), random block schedules with forced grants and, in half "+
 		"of them, the paused worker; round-robin drain. Compared: read timestamps, every value read, commit results, final version lists. "+
 		"non-trivial = at least one commit succeeded; distinct by Gallina term")
@@ -561,6 +587,33 @@ func runTxnSched(c *corr.Ctx) error {
 	}
 	if ferr != nil {
 		return ferr
+	}
+	// E: the watermark window (65536 slots from 1) slides while the oldest commit is still pending: the DB
+	// starts at timestamp 65530; committer 0 gets 65531 and stops before it hands its entries over; six more
+	// commits (up to 65537, the first index outside the window) run completely; a reader begins and reads
+	// committer 0's key before and after committer 0 finishes.
+	slide := []schedProg{{Tag: "c0", Keys: []int{0}}, {Reads: []int{0, 0}}}
+	for t := 2; t < 8; t++ {
+		slide = append(slide, schedProg{Tag: fmt.Sprintf("c%d", t), Keys: []int{1}})
+	}
+	for _, variant := range []int{0, 1} {
+		var w []int
+		for t := 2; t < 8; t++ { // the later committers begin before committer 0 has its timestamp
+			w = append(w, t, t)
+		}
+		w = append(w, 0, 0, 0)
+		for t := 2; t < 8; t++ {
+			w = append(w, t, t)
+		}
+		if variant == 0 {
+			w = append(w, 1, 1, 1, 0, 0, 1)
+		} else {
+			w = append(w, 1, 101, 1, 0, 0, 1)
+		}
+		c.Count("targeted_window_slide_schedules")
+		if err := emit(schedDesc{Detect: true, Base: 65530, Stop: []int{0}, Progs: slide, Words: w}); err != nil {
+			return err
+		}
 	}
 	n := c.Scale(60, 3000)
 	for i := 0; i < n; i++ {
